@@ -3,5 +3,6 @@ CONSTANTS
   K = 2
   MaxRows = 4
   RelsC <- KleinB
-INVARIANTS NodeClosed LeafValid Transversal
+  LAZY = FALSE
+INVARIANTS NodeClosed LeafValid Transversal QueueIsClosure
 CHECK_DEADLOCK FALSE
